@@ -119,9 +119,9 @@ structure Conf where
   rlock : List Nat                      -- client threads holding `db.rwLock` in READ mode
   comp : Option (Nat × List Nat)        -- compactor between `select` and `reflect`: number of tables seen, their sizes
   now : Nat                             -- number of micro-steps executed = index of the next one
-  calls : List Call                     -- history: invocations
-  hist : List HEntry                    -- history: completed calls
-  effs : List Eff                       -- auxiliary effect log
+  calls : List Call                     -- history: invocations, NEWEST FIRST
+  hist : List HEntry                    -- history: completed calls, newest first
+  effs : List Eff                       -- auxiliary effect log, newest first
 
 def init (s : State) : Conf :=
   { db := s, cl := fun _ => .idle, rlock := [], comp := none, now := 0, calls := [], hist := [], effs := [] }
@@ -144,7 +144,7 @@ def reflectOn (s : State) (n : Nat) (sizes : List Nat) : State :=
 def step? (c : Conf) : Ev → Option Conf
   | .inv t op =>
     match c.cl t with
-    | .idle => some { c with cl := c.setCl t (.invoked op c.now), calls := c.calls ++ [⟨t, op, c.now⟩],
+    | .idle => some { c with cl := c.setCl t (.invoked op c.now), calls := ⟨t, op, c.now⟩ :: c.calls,
                              now := c.now + 1 }
     | _ => none
   | .write t rot =>
@@ -153,17 +153,17 @@ def step? (c : Conf) : Ev → Option Conf
     | .invoked (.put k v) i =>
       let (db', r) := putBytes c.db k v rot
       some { c with db := db', cl := c.setCl t (.done (.put k v) i r),
-                    effs := c.effs ++ [⟨t, .put k v, i, c.now, r⟩], now := c.now + 1 }
+                    effs := ⟨t, .put k v, i, c.now, r⟩ :: c.effs, now := c.now + 1 }
     | .invoked (.del k) i =>
       let (db', r) := deleteBytes c.db k
       some { c with db := db', cl := c.setCl t (.done (.del k) i r),
-                    effs := c.effs ++ [⟨t, .del k, i, c.now, r⟩], now := c.now + 1 }
+                    effs := ⟨t, .del k, i, c.now, r⟩ :: c.effs, now := c.now + 1 }
     | _ => none
   | .readTables t =>                            -- `RLock()`: no writer is inside (writers are atomic steps)
     match c.cl t with
     | .invoked (.get k) i =>
       some { c with cl := c.setCl t (.reading k i c.db), rlock := t :: c.rlock,
-                    effs := c.effs ++ [⟨t, .get k, i, c.now, DBM.get c.db k⟩], now := c.now + 1 }
+                    effs := ⟨t, .get k, i, c.now, DBM.get c.db k⟩ :: c.effs, now := c.now + 1 }
     | _ => none
   | .readMem t =>
     match c.cl t with
@@ -173,7 +173,7 @@ def step? (c : Conf) : Ev → Option Conf
     | _ => none
   | .resp t =>
     match c.cl t with
-    | .done op i r => some { c with cl := c.setCl t .idle, hist := c.hist ++ [⟨t, op, i, c.now, r⟩],
+    | .done op i r => some { c with cl := c.setCl t .idle, hist := ⟨t, op, i, c.now, r⟩ :: c.hist,
                                     now := c.now + 1 }
     | _ => none
   | .hookRotate =>
@@ -203,9 +203,9 @@ def Valid (s0 : State) (sched : Sched) : Prop := (run (init s0) sched).isSome = 
 
 instance (s0 : State) (sched : Sched) : Decidable (Valid s0 sched) := by unfold Valid; infer_instance
 
-/-- `exec`: the history a valid schedule produces (invocations, completed calls) -/
+/-- `exec`: the history a valid schedule produces (invocations, completed calls; both in chronological order) -/
 def exec (s0 : State) (sched : Sched) : Option (List Call × List HEntry) :=
-  (run (init s0) sched).map fun c => (c.calls, c.hist)
+  (run (init s0) sched).map fun c => (c.calls.reverse, c.hist.reverse)
 
 end Conc
 end SST
